@@ -169,6 +169,16 @@ def run(ctx):
                 ctx.case(("sweep", cls_name, n, tuple(t["Y"]), tuple(t["W"]), tuple(t["X"])), nontrivial=n >= 3,
                          sample=dict(kind="sweep", criterion=cls_name, Y=t["Y"], W=t["W"], X=t["X"], ev=t["ev"][:5]))
                 traces.append(t)
+    # the same sweep for the linear criterion on features with runs of equal values (rank-deficient ranges: the residual
+    # of the least-squares fit is still unique)
+    for Xfix in ([2, 2, 2, 2], [0, 1, 1, 1, 2], [1, 1, 1, 0, 0]):
+        tid += 1
+        t = cursor_trace(tid, rng, "linear", len(Xfix), 0, small=True)
+        t["X"] = list(Xfix)
+        t["ev"] = sweep_events(t, "linear", len(Xfix))
+        t["sig"] = "triples rank-deficient"
+        ctx.case(("sweep", "linear", tuple(t["Y"]), tuple(t["X"])), nontrivial=True)
+        traces.append(t)
     for k in range(900 if thorough else 240):
         tid += 1
         cls_name = rng.choice(["simple", "fast", "linear", "linear"])
